@@ -52,6 +52,7 @@ class StoreEngine(Engine):
         stats = dict(j.stats)
         stats['fired'] = fired
         stats['procs'] = len(scn['procs'])
+        stats['sim_clock_s'] = sum((o['clock'][1] - o['clock'][0]) for o in obs if isinstance(o.get('clock'), list))
         stats['hs'] = sorted({p.get('hs', 0) for p in scn['procs'] if not p.get('parent')})
         return j.discs, stats, j.abstract_states
 
